@@ -34,13 +34,25 @@ class Leaf(object):
 
 
 class Explorer(object):
-    def __init__(self, run, sig_of, max_runs=20000, hints=()):
+    def __init__(self, run, sig_of, max_runs=20000, hints=(), exact=False):
         """run(script) -> RunResult;  sig_of(res) -> hashable summary of a
-        finished run (used to tell regions of a uniform apart)."""
+        finished run (used to tell regions of a uniform apart).
+
+        exact=False: a value of a uniform is characterised by the pending
+        request that follows it plus two canonical completions (all later
+        draws answered low / high) with their request logs.  Cheap, but two
+        values with different continuation *laws* could in principle look the
+        same.  exact=True characterises a value by the complete law of the
+        subtree below it (sound under the monotone-step assumption, costs a
+        subtree exploration per probe).  Callers explore fast and re-explore
+        exactly before reporting any disagreement, so a wrong merge can never
+        become an alarm."""
         self.run = run
         self.sig_of = sig_of
         self.max_runs = max_runs
         self.hints = [h for h in hints if h is not None and 0.0 < h < 1.0]
+        self.exact = exact
+        self._cur_anchor = None
         self.runs = 0
         self.bisect_probes = 0
         self.hint_hits = 0
@@ -57,33 +69,52 @@ class Explorer(object):
             raise Skip("%s: %r" % (res.status, res.exc))
         return res
 
-    def _canon(self, script, res):
-        """Follow one canonical path to a finished run; returns its summary."""
+    def _canon(self, script, res, high):
+        """Follow one canonical path (later draws answered low or high) to a
+        finished run; returns its summary and the requests met on the way."""
         attempt = 0
         script = list(script)
-        for _ in range(16):
+        for _ in range(24):
             if res.status != "pending":
-                return (res.status, self.sig_of(res))
+                reqs = tuple((e[0], e[1]) for e in (res.log or ())[-40:])
+                return (res.status, self.sig_of(res), reqs)
             kind = res.pending[0]
             raw = res.sim.pending_raw
             if kind == "c":
-                script.append(("c", attempt % len(raw)))
+                n = len(raw)
+                script.append(("c", (n - 1 - attempt % n) if high else attempt % n))
                 attempt += 1
             elif kind == "r":
-                script.append(("r", 0.0))
+                script.append(("r", ONE_MINUS if high else 0.0))
             elif kind == "s":
-                script.append(("s", tuple(range(raw[1]))))
+                k = raw[1]
+                n = len(raw[0])
+                script.append(("s", tuple(range(n - k, n)) if high else tuple(range(k))))
             elif kind == "b":
-                script.append(("b", 0))
+                script.append(("b", int(raw[0]) if high else 0))
             else:
-                return ("pending", res.pending)
+                return ("pending", res.pending, ())
             res = self._run(script)
-        return ("deep", None)
+        return ("deep", None, ())
+
+    def _subtree_law(self, script):
+        leaves, retry = self._expand(list(script), [], 1.0, self._cur_anchor, True)
+        law = {}
+        for lf in leaves:
+            k = (lf.kind, repr(self.sig_of(lf.res)) if lf.kind in ("done", "exc") else None)
+            law[k] = law.get(k, 0.0) + lf.mass
+        if retry:
+            law[("retry",)] = retry
+        return tuple(sorted((k, round(v, 9)) for k, v in law.items()))
 
     def _sig(self, script):
         res = self._run(script)
+        if self.exact:
+            if res.status == "pending":
+                return ("law", res.pending, self._subtree_law(script)), res
+            return (res.status, None, self.sig_of(res)), res
         if res.status == "pending":
-            return (res.status, res.pending, self._canon(script, res)), res
+            return (res.status, res.pending, self._canon(script, res, False), self._canon(script, res, True)), res
         return (res.status, None, self.sig_of(res)), res
 
     # ---------------------------------------------------------- uniforms
@@ -179,7 +210,13 @@ class Explorer(object):
             return leaves, 0.0
         if kind == "r":
             leaves, back = [], 0.0
-            for lo, hi, rep, _ in self._regions(base + path):
+            saved = self._cur_anchor
+            self._cur_anchor = anchor
+            try:
+                regions = self._regions(base + path)
+            finally:
+                self._cur_anchor = saved
+            for lo, hi, rep, _ in regions:
                 lv, rt = self._expand(base, path + [("r", rep)], mass * (hi - lo),
                                       anchor, True)
                 leaves.extend(lv)
